@@ -630,6 +630,9 @@ func v6Exec(env *v6Env, c v6Case, bubble bool) (res v6Result) {
 		}
 		cancelAt = d
 	}
+	w.mu.Lock()
+	w.cancelCall = cancel
+	w.mu.Unlock()
 	if cancelAt > 0 {
 		tm := time.AfterFunc(cancelAt, cancel)
 		defer tm.Stop()
@@ -922,7 +925,16 @@ func v6Judge(c v6Case, s *v6Square, out *v6CallOut, returned bool, keys []string
 		}
 		ex.mu.Unlock()
 	}
-	if (allShrex || allBs) && out.err != nil {
+	// ... unless that response arrived at the very instant the caller gave up ("atend:*"): the call was alive
+	// only up to that instant, and answering a cancelled call with the context's error is as legitimate as
+	// answering it with the data
+	endedByAnswer := false
+	for _, a := range arrived {
+		if _, e := v6AtEndOf(a); e {
+			endedByAnswer = true
+		}
+	}
+	if (allShrex || allBs) && out.err != nil && !endedByAnswer {
 		// the mechanism is named after the first answer that put bytes into the getter's container before the
 		// honest one (what a later rejection of honest data can stem from); failing that, after the first answer
 		prev, prevAny := "", ""
